@@ -483,6 +483,36 @@ def check_with_timeout(ck, R="C34.with-timeout", RS="C34.settle"):
     return fi, src, res
 
 
+def check_timer_removed(ck, rule, fi):
+    """`finished waits leave no residue`: the timer armed by ``fi`` is removed by a done-callback on the waited-for future,
+    and that callback reaches remove_timeout on every path (a condition such as `result.done() or ...` skips it exactly
+    when the wait finished normally).  Whole function and its callables are scanned: no remove_timeout at all is a violation."""
+    from ..cfg import _node_roots
+    regs = own_find(fi, lambda x: isinstance(x, ast.Call) and q.call_attr(x) in ("add_done_callback", "future_add_done_callback", "add_future") and x.args)
+    n = 0
+    for nd, c in regs:
+        cbe = c.args[-1]
+        ccfg = callable_cfg(ck.repo, fi, cbe)
+        if ccfg is None:
+            continue
+
+        def cnt(node):
+            if node.ast is None or node.kind not in ("stmt", "test") or isinstance(node.ast, q.ScopeNode):
+                return 0
+            return sum(1 for r_ in _node_roots(node) for y in q.walk_local(r_) if isinstance(y, ast.Call) and q.call_attr(y) == "remove_timeout")
+
+        if not any(cnt(x) for x in ccfg.nodes):
+            continue
+        n += 1
+        st_, _e = exit_states(ccfg, 0, lambda node, v: min(2, v + cnt(node)), follow_exc=False)
+        for _f, k in st_:
+            ck.ob(rule, fi, c, k >= 1, "the done-callback removes the timer on every path, whatever the outcome (removals on this path=%d)" % k, construct="timer removal paths removals=%d" % k)
+    arms = own_find(fi, lambda x: isinstance(x, ast.Call) and q.call_attr(x) == "add_timeout")
+    if arms:
+        ck.ob(rule, fi, fi.node, n >= 1, "a timer armed for the wait is removed when the waited-for future finishes (no timer residue)", construct="timer removal registered=%d" % n)
+    return n
+
+
 def run(ck):
     ck._orig_repo = getattr(ck, "_orig_repo", None) or ck.repo
     ck.repo = normalized(ck.repo, NORM_MODULES)  # alias / named-boolean / temporary / setter-helper normalisation (vt/x_syncnorm.py)
@@ -510,7 +540,9 @@ def run(ck):
     check_fifo(ck, R="C34.fifo", family=COND_FAMILY)
     check_gc(ck, R="C34.gc-live", val=None)
     check_event(ck)
-    check_with_timeout(ck)
+    wt_, _s, _r = check_with_timeout(ck)
+    k_ = check_timer_removed(ck, "C34.with-timeout", wt_) + check_timer_removed(ck, "C34.cond-timeout", ck.func(L, "Condition.wait"))
+    ck.floor("C34.with-timeout", k_, 2, "timer-removal callbacks (with_timeout, Condition.wait)")
     for cls in COND_FAMILY + ("Event",):
         for f_ in ck.repo.methods(L, cls):
             if isinstance(f_.node, q.FuncNode):
@@ -539,6 +571,8 @@ def _move_dec_out_of_guard(root):
 
 
 MUTANTS = [
+    ("with_timeout removes its timer only when the result is still pending (`result.done() or remove_timeout`; seeded C34-adv6)", _in("with_timeout", replace_expr(lambda n: isinstance(n, ast.Lambda) and "remove_timeout" in ast.unparse(n), lambda n: ast.Lambda(args=n.args, body=ast.BoolOp(op=ast.Or(), values=[parse_expr("result.done()"), n.body])), limit=1), rel=G), "C34.with-timeout"),
+    ("Condition.wait never removes its timer", _in("Condition.wait", remove_stmts(lambda st: isinstance(st, ast.Expr) and "remove_timeout" in ast.unparse(st))), "C34.cond-timeout"),
     ("Condition.wait arms call_later(timeout) after converting timedeltas (seeded C34-adv5)", _in("Condition.wait", lambda root: _to_call_later(root)), "C34.cond-timeout"),
     ("Event.wait without timeout never unregisters its waiter (self-removal moved below the early return; seeded C34-adv4)", _in("Event.wait", lambda root: _move_removal_down(root)), "C34.event-wait"),
     ("a cancelled timed Event.wait leaves its waiter registered (hook acts only on a failed, not cancelled wrapper; seeded C34-adv3)", _in("Event.wait", replace_expr(lambda n: isinstance(n, ast.Lambda) and "cancel()" in ast.unparse(n), lambda n: parse_expr("lambda tf: fut.cancel() if (not tf.cancelled() and tf.exception() is not None) else None"))), "C34.event-wait"),
